@@ -39,10 +39,11 @@ def iface_session(seed, n):
     return {'init': dict(sessbase.NOFILTER), 'events': ev, 'mode': 'iface'}
 
 
-def appid_session(seed):
+def appid_session(seed, live=False):
     """connections that name themselves, then `connection <application id>` in several spellings, and the listing"""
     r = random.Random(seed)
-    ids = r.sample(['org.gnome.gedit', 'Firefox', 'com.example.App', 'ALLCAPS', 'kitty', 'a.b.C', 'x'], 3)
+    # (application ids that are also connection names: a name wins over an application id)
+    ids = r.sample(['org.gnome.gedit', 'Firefox', 'com.example.App', 'ALLCAPS', 'kitty', 'a.b.C', 'x', 'b', 'C', 'B', 'a'], 3)
     ev, t = [], 1000
     for k, app in enumerate(ids):
         tag = str(k + 1)
@@ -57,11 +58,19 @@ def appid_session(seed):
             t += 500
             ev.append({'in': {'e': 'msg', 'tag': tag, 't': t, 'm': {'ttype': 'xdg_toplevel', 'tid': 3, 'name': name, 'sent': not side,
                                                                  'args': [{'k': 'str', 's': txt}]}}})
+    nid = 10
     for _ in range(6):
         a = r.choice(ids + ['nobody'])
         ev.append({'in': {'e': 'cmd', 'c': 'conn', 'arg': r.choice([a, a.upper(), a.lower(), a.swapcase(), 'B', 'c', ''])}})
         if r.random() < 0.4:
             ev.append({'in': {'e': 'cmd', 'c': 'conn', 'arg': ''}})
+        if live:
+            # messages on every connection after each selection: what the live view shows tells which one was selected
+            for k in r.sample(range(len(ids)), len(ids)):
+                t += 500
+                nid += 1
+                ev.append({'in': {'e': 'msg', 'tag': str(k + 1), 't': t, 'm': {'ttype': 'wl_display', 'tid': 1, 'name': 'sync', 'sent': True,
+                                                                         'args': [{'k': 'new', 'type': 'wl_callback', 'id': nid}]}}})
     ev.append({'in': {'e': 'eof'}})
     ev.append({'in': {'e': 'cmd', 'c': 'conn', 'arg': ''}})
     return {'init': dict(sessbase.NOFILTER), 'events': ev}
